@@ -17,8 +17,8 @@ Null == P!Null
 
 (* ---------- statement trees ---------- *)
 (* Leaves: what a return statement returns, as a sequence of literal types (a non-tuple occupies position 1).   *)
-RetLeaves == << <<"int">>, <<"float">>, <<"str">>, <<"bool">>, <<"none">>, <<"int", "str">>, <<"int", "float", "none">>, <<"int">> >>
-NLeaf == Len(RetLeaves)      \* leaf 8 is `-1` (a unary expression)
+RetLeaves == << <<"int">>, <<"float">>, <<"str">>, <<"bool">>, <<"none">>, <<"int", "str">>, <<"int", "float", "none">>, <<"int">>, <<"str", "int">> >>
+NLeaf == Len(RetLeaves)      \* leaf 8 is `-1` (a unary expression); leaf 9 is leaf 6 with its positions swapped
 Ret(v) == [k |-> "ret", v |-> v, b |-> <<>>]
 Comp(k, bodies) == [k |-> k, v |-> 0, b |-> bodies]
 
@@ -46,7 +46,7 @@ Elifs(L) == { << Comp("ifelif", << <<Ret(a)>>, <<Ret(b)>>, <<Ret(c)>> >>) >> : a
 
 Bodies(tier) ==
   LET all == 1..NLeaf
-      small == {1, 3, 5, 6, 7}
+      small == {1, 3, 5, 6, 7, 9}
       tiny == {1, 5, 6}
   IN B0(all) \cup Compounds(B0(all), small) \cup Conds(all) \cup Elifs(small)
      \cup { <<>> }                                                     \* no return statement at all
